@@ -162,7 +162,8 @@ class _Wrap(ast.NodeTransformer):
 
 def leaves_int32(script, inp, loops):
     """True iff the CPython execution of the generated script (setup + `loops` passes) computes an int outside
-    the 32-bit range of the g++ mock (C int is modelled as Z with an explicit no-overflow guard, DESIGN section 1);
+    the 32-bit range of the g++ mock (C int is modelled as Z with an explicit no-overflow guard, DESIGN section 1)
+    or a float of magnitude >= 2^17 (the device float is binary32; Serial prints 2 decimals);
     None if the script cannot be analysed (it is then kept inside the guard)."""
     body = script[len(progen.HEADER):] if script.startswith(progen.HEADER) else script
     try:
@@ -186,6 +187,8 @@ def leaves_int32(script, inp, loops):
     def chk(v):
         if isinstance(v, int) and not isinstance(v, bool) and abs(v) > INT_MAX:
             seen[0] = True
+        elif isinstance(v, float) and not abs(v) < 131072.0:
+            seen[0] = True      # the device float is binary32: beyond 2^17 it no longer carries the 2 printed decimals
         return v
 
     def read(kind):
@@ -491,7 +494,7 @@ def run_unit(ctx: C.Ctx):
     outside = []
     for s, p, f, l, r in zip(srcs, progs, feats, loops, res):
         if r["status"] in ("DIFF", "equal") and leaves_int32(s, p["input"], l):
-            r["status"] = "outside-guard:int32-overflow"        # C int is 32 bits on the mock; never blamed (DESIGN section 1)
+            r["status"] = "outside-guard:int32/float32-range"        # C int is 32 bits on the mock; never blamed (DESIGN section 1)
         if r["status"] == "DIFF" and model_predicts_deviation(ctx, p, l):
             r["status"] = "outside-guard:model-predicted-deviation"
             outside.append(s[len(progen.HEADER):])
